@@ -251,6 +251,10 @@ def large_documents():
     for n in (200, 1000):
         out.append((["large:variables", n], "PROGRAM main\nVAR total : INT; " + " ".join("v%d : INT;" % i for i in range(n)) + " END_VAR\n" + tail))
     out.append((["large:comment", 30000], head + "(* " + "\u00e9\u20ac " * 10000 + "*)\n" + tail))
+    # many problems in one document (a rule that reports every occurrence: CONSTANT without initial value): all of them
+    # are published, as all of them are printed
+    for n in (30, 150, 600):
+        out.append((["large:diagnostics", n], "PROGRAM main\nVAR CONSTANT\n" + "".join("  k%d : INT;\n" % i for i in range(n)) + "END_VAR\nEND_PROGRAM\n"))
     return out
 
 
